@@ -108,6 +108,9 @@ Definition n_nclx := name4 110 99 108 120.
 Definition n_nclc := name4 110 99 108 99.
 Definition n_rICC := name4 114 73 67 67.
 Definition n_prof := name4 112 114 111 102.
+(* stage 4 *)
+Definition n_hvcC := name4 104 118 99 67.
+Definition n_subs := name4 115 117 98 115.
 
 (* ---------------------------------------------------------------- box header (box.go / boxsr.go) *)
 Record hdr := mkHdr { h_name : list N; h_size : N; h_len : N }.
@@ -191,7 +194,16 @@ Inductive leaf :=
 | LSenc (flags count : N) (raw : list N) (readSize : N) (notParsed : bool)   (* rawData, readBoxSize, readButNotParsed *)
 | LEmsg (version flags timescale ptime dur id : N) (scheme value data : list N)
 | LElng (missing : bool) (version flags : N) (lang : list N)                  (* missingFullBox *)
-| LKind (version flags : N) (scheme value : list N).
+| LKind (version flags : N) (scheme value : list N)
+(* --- stage 4 --- *)
+(* hevc.DecConfRec: GeneralProfileSpace GeneralTierFlag GeneralProfileIDC GeneralProfileCompatibilityFlags
+   GeneralConstraintIndicatorFlags GeneralLevelIDC MinSpatialSegmentationIDC ParallellismType ChromaFormatIDC
+   BitDepthLumaMinus8 BitDepthChromaMinus8 AvgFrameRate ConstantFrameRate NumTemporalLayers TemporalIDNested
+   (LengthSizeMinusOne is 3 in every accepted record) NaluArrays (completeAndType, Nalus) *)
+| LHvcC (space : N) (tier : bool) (idc compat constr level mss par chroma bdl bdc afr cfr ntl tin : N)
+        (arrays : list (N * list (list N)))
+(* Entries (SampleDelta, SubSamples (SubsampleSize, SubsamplePriority, Discardable, CodecSpecificParameters)) *)
+| LSubs (version flags : N) (entries : list (N * list (N * N * N * N))).
 
 Definition leaf_name (l : leaf) : list N :=
   match l with
@@ -210,6 +222,7 @@ Definition leaf_name (l : leaf) : list N :=
   | LColr _ _ _ _ _ _ => n_colr | LClap _ _ _ _ _ _ _ _ => n_clap | LSchm _ _ _ _ _ => n_schm
   | LCslg _ _ _ _ _ _ _ => n_cslg
   | LSenc _ _ _ _ _ => n_senc | LEmsg _ _ _ _ _ _ _ _ _ => n_emsg | LElng _ _ _ _ => n_elng | LKind _ _ _ _ => n_kind
+  | LHvcC _ _ _ _ _ _ _ _ _ _ _ _ _ _ _ _ => n_hvcC | LSubs _ _ _ => n_subs
   end.
 
 Definition unity_matrix : list N :=
@@ -739,6 +752,53 @@ Definition dec_kind (h : hdr) : parser (leaf * rsvT) :=
   pdo va <- rd_zt (payload_len h - (4 + lenN sc + 1)) ;;
   pret (LKind (vf_version vf) (vf_flags vf) sc va, []).
 
+(* ================================================================ stage 4 leaf kinds *)
+(* ---------------------------------------------------------------- hvcC (hevc.DecodeHEVCDecConfRec on the payload) *)
+(* one NaluArray: completeAndType, numNalus, then (length, bytes) per NALU *)
+Definition rd_narr : parser (N * list (list N)) :=
+  pdo ct <- rd 1 ;; pdo n <- rd 2 ;;
+  fun bs => (pdo nalus <- rd_many (S (length bs)) n rd_nalu ;; pret (ct, nalus)) bs.
+Definition wr_narr (a : N * list (list N)) : list N :=
+  be_enc 1 (fst a) ++ be_enc 2 (lenN (snd a)) ++ flat_map wr_nalu (snd a).
+(* GeneralConstraintIndicatorFlags = ReadUint32()<<16 | ReadUint16(), written by WriteUint48: six bytes, big endian.
+   rsv: the 4 reserved bits beside MinSpatialSegmentationIDC, the 6+6 beside ParallellismType and ChromaFormatIDC,
+   the 5+5 beside the bit depths (numbers, one-element chunks); then (dec_hvcC) the bytes after the record *)
+Definition hvcc_rec : parser (leaf * rsvT) :=
+  pdo cv <- rd 1 ;;
+  if negb (cv =? 1) then pfail else
+  pdo a <- rd 1 ;; pdo compat <- rd 4 ;; pdo cstr <- rd 6 ;; pdo lvl <- rd 1 ;;
+  pdo mss <- rd 2 ;; pdo par <- rd 1 ;; pdo chroma <- rd 1 ;; pdo bdl <- rd 1 ;; pdo bdc <- rd 1 ;;
+  pdo afr <- rd 2 ;; pdo b <- rd 1 ;;
+  if negb (b mod 4 =? 3) then pfail else          (* ErrLengthSize *)
+  pdo na <- rd 1 ;;
+  pdo arrays <- rd_many 256 na rd_narr ;;
+  pret (LHvcC ((a / 64) mod 4) ((a / 32) mod 2 =? 1) (a mod 32) compat cstr lvl (mss mod 4096) (par mod 4) (chroma mod 4)
+              (bdl mod 8) (bdc mod 8) afr ((b / 64) mod 4) ((b / 8) mod 8) ((b / 4) mod 2) arrays,
+        [[mss / 4096]; [par / 4]; [chroma / 4]; [bdl / 8]; [bdc / 8]]).
+Definition dec_hvcC (h : hdr) : parser (leaf * rsvT) :=
+  pdo data <- rdB (payload_len h) ;;
+  fun r => match hvcc_rec data with
+           | Ok ((l, rsv), extra) => Ok ((l, rsv ++ [extra]), r)
+           | Err => Err | Panic => Panic | OutOfFuel => OutOfFuel
+           end.
+
+(* ---------------------------------------------------------------- subs *)
+Definition rd_subsample (w : nat) : parser (N * N * N * N) :=
+  pdo sz <- rd w ;; pdo pr <- rd 1 ;; pdo di <- rd 1 ;; pdo csp <- rd 4 ;; pret (sz, pr, di, csp).
+Definition wr_subsample (w : nat) (s : N * N * N * N) : list N :=
+  match s with (sz, pr, di, csp) => be_enc w sz ++ be_enc 1 pr ++ be_enc 1 di ++ be_enc 4 csp end.
+Definition rd_subs_entry (w : nat) : parser (N * list (N * N * N * N)) :=
+  pdo delta <- rd 4 ;; pdo n <- rd 2 ;;
+  fun bs => (pdo ss <- rd_many (S (length bs)) n (rd_subsample w) ;; pret (delta, ss)) bs.
+Definition wr_subs_entry (w : nat) (e : N * list (N * N * N * N)) : list N :=
+  be_enc 4 (fst e) ++ be_enc 2 (lenN (snd e)) ++ flat_map (wr_subsample w) (snd e).
+(* the subsample size is 32 bits wide on version == 1 only (decode, encode and Size agree) *)
+Definition subs_w (v : N) : nat := if v =? 1 then 4%nat else 2%nat.
+Definition dec_subs (h : hdr) : parser (leaf * rsvT) :=
+  pdo vf <- rd 4 ;; pdo cnt <- rd 4 ;;
+  fun bs => (pdo es <- rd_many (S (length bs)) cnt (rd_subs_entry (subs_w (vf_version vf))) ;;
+             pret (LSubs (vf_version vf) (vf_flags vf) es, [])) bs.
+
 (* ---------------------------------------------------------------- encoders (bodies) *)
 Definition ok_bytes (l : list N) : res (list N) := Ok l.
 
@@ -867,6 +927,17 @@ Definition body_leaf (l : leaf) (r : rsvT) : res (list N) :=
            else sc ++ [0] ++ va ++ [0] ++ be_enc 4 ts ++ be_enc 4 pt ++ be_enc 4 du ++ be_enc 4 id) ++ d)
   | LElng missing v f _ => Ok ((if missing then [] else be_enc 4 (N.lor (u32 (v * 16777216)) f)) ++ chunk 0 r)
   | LKind v f sc va => Ok (be_enc 4 (vf_join v f) ++ sc ++ [0] ++ va ++ [0])
+  | LHvcC sp tier idc compat cstr lvl mss par chroma bdl bdc afr cfr ntl tin arrays =>
+      (* GeneralProfileSpace<<6 | generalTierFlagBit | GeneralProfileIDC etc. in byte arithmetic; 0xf000 | mss, 0xfc | .., 0xf8 | .. *)
+      Ok (be_enc 1 1 ++ be_enc 1 (N.lor (N.lor (u8 (sp * 64)) (if tier then 32 else 0)) idc) ++ be_enc 4 compat ++
+          be_enc 6 cstr ++ be_enc 1 lvl ++
+          be_enc 2 (N.lor (hd 0 (chunk 0 r) * 4096) mss) ++ be_enc 1 (N.lor (hd 0 (chunk 1 r) * 4) par) ++
+          be_enc 1 (N.lor (hd 0 (chunk 2 r) * 4) chroma) ++ be_enc 1 (N.lor (hd 0 (chunk 3 r) * 8) bdl) ++
+          be_enc 1 (N.lor (hd 0 (chunk 4 r) * 8) bdc) ++ be_enc 2 afr ++
+          be_enc 1 (N.lor (N.lor (N.lor (u8 (cfr * 64)) (u8 (ntl * 8))) (u8 (tin * 4))) 3) ++
+          be_enc 1 (lenN arrays) ++ flat_map wr_narr arrays ++ chunk 5 r)
+  | LSubs v f es =>
+      Ok (be_enc 4 (vf_join v f) ++ be_enc 4 (lenN es) ++ flat_map (wr_subs_entry (subs_w v)) es)
   end.
 
 (* WriteZeroBytes(int(31 - compressorNameLength)) with compressorNameLength := byte(len(name)), in byte arithmetic *)
@@ -889,6 +960,7 @@ Definition dflt_rsv (l : leaf) : rsvT :=
   | LAvcC _ _ _ _ _ _ _ _ _ _ => [[63]; [7]; [63]; [31]; [31]; []]
   | LColr _ _ _ _ _ _ => [[0]]
   | LElng _ _ _ lang => [lang ++ [0]]
+  | LHvcC _ _ _ _ _ _ _ _ _ _ _ _ _ _ _ _ => [[15]; [63]; [63]; [31]; [31]; []]
   | _ => []
   end.
 
@@ -902,6 +974,7 @@ Definition rsv_dc (l : leaf) : list bool :=
   | LAudio _ _ _ _ _ => [true; true; true; false]
   | LAvcC _ _ _ _ _ _ _ _ _ _ => [true; true; true; true; true; false]
   | LElng _ _ _ _ => [false]
+  | LHvcC _ _ _ _ _ _ _ _ _ _ _ _ _ _ _ _ => [true; true; true; true; true; false]
   | _ => []
   end.
 
@@ -968,6 +1041,9 @@ Definition size_leaf (l : leaf) : N :=
       (if v =? 1 then 8 + 4 + 4 + 8 + 4 + 4 else 8 + 4 + 4 + 4 + 4 + 4) + lenN sc + 1 + lenN va + 1 + lenN d
   | LElng missing _ _ lang => 8 + 4 + lenN lang + 1 - (if missing then 4 else 0)
   | LKind _ _ sc va => 8 + 4 + lenN sc + 1 + lenN va + 1
+  | LHvcC _ _ _ _ _ _ _ _ _ _ _ _ _ _ _ arrays =>
+      8 + 23 + sumN (map (fun a => 3 + sumN (map (fun x => 2 + lenN x) (snd a))) arrays)
+  | LSubs v _ es => 16 + sumN (map (fun e => 6 + lenN (snd e) * (if v =? 1 then 10 else 8)) es)
   end.
 
 (* header written by the leaf encoder *)
@@ -998,7 +1074,8 @@ Definition leaf_table : list (list N * (hdr -> parser (leaf * rsvT))) :=
     (n_tfra, dec_tfra); (n_pssh, dec_pssh);
     (n_url, dec_url); (n_avcC, dec_avcC); (n_btrt, dec_btrt); (n_pasp, dec_pasp); (n_colr, dec_colr);
     (n_clap, dec_clap); (n_schm, dec_schm); (n_cslg, dec_cslg);
-    (n_senc, dec_senc); (n_emsg, dec_emsg); (n_elng, dec_elng); (n_kind, dec_kind) ].
+    (n_senc, dec_senc); (n_emsg, dec_emsg); (n_elng, dec_elng); (n_kind, dec_kind);
+    (n_hvcC, dec_hvcC); (n_subs, dec_subs) ].
 
 (* boxes with a field prefix followed by child boxes.  PStrict off: DecodeContainerChildrenSR(hdr, startPos+off,
    startPos+hdr.Size) (sizes cross-checked against the bytes consumed); PEntry start: the sample entry loop
